@@ -16,6 +16,7 @@ RULE = (
     '(shape, layout, index kinds) cell; non-trivial iff the index selects >=1 and < all (point,task) pairs, or the case is a basics/ctor case '
     'with n*t>=2'
     '; pass 5: exact log_prob path and scale_tril (triangular, L L^T) for joints above max_cholesky_size'
+    '; pass 6: from_independent_mvns members sharing ONE covariance object; one index tensor object at two positions; index tensors must not be mutated'
 )
 REQUIRED = ["index_mean", "index_covariance", "log_prob", "variance", "rsample_LLt", "to_data_independent", "from_batch_mvn", "from_independent_mvns", "from_repeated_mvn"]
 ASSUMPTIONS = ["covariances are random dense SPD matrices (condition number < 1e3); representation dense tensor or DenseLinearOperator/Kronecker"]
